@@ -469,9 +469,65 @@ def explore(col, scn, tier):
     col.extra("deviating_runs", nruns)
 
 
+# ---- conformance of the seam with the kernel (DESIGN section 6) -----------
+def conformance_candidates(scns=None):
+    """all single deviations that strace can inject, in scenario order"""
+    from mc import conformance
+    out = []
+    for scn in (scns or (file_scenarios() + sharded_scenarios())):
+        if scn["kind"] == "sharded" and scn["strategy"] == "in memory":
+            continue      # the child opens the dataset the documented way
+        ref = execute(scn, {})
+        pts = ref["points"]
+        for k in range(len(pts)):
+            for dev in iosim.menu_for(pts[k]):
+                if conformance.expressible(pts, k, dev):
+                    out.append((scn, k, list(dev)))
+    return out
+
+
+def conformance_unit(col, items):
+    from mc import conformance, runner
+    ok, why = conformance.strace_available()
+    if not ok:
+        col.ev(len(items), 0, "conformance-skipped")
+        col.r["extra"]["conformance_skipped_reason"] = 0
+        return
+    for scn, k, dev in items:
+        dev = tuple(dev)
+        ref = execute(scn, {})
+        pts = ref["points"]
+        sim_run = execute(scn, {k: dev})
+        d = sandbox.fresh_dir("c18c")
+        try:
+            setup(d, scn)
+            res = conformance.run_c18_op(
+                d, scn, runner.scratch_root(),
+                conformance.strace_args(d, pts, k, dev))
+            real_tree = dir_tree(d)
+        finally:
+            sandbox.rm(d)
+        so = sim_run["outcome"]
+        sim_kind = {"ok": "ok", "exc": "exc", "killed": "killed"}[so[0]]
+        same = (res["outcome"] == sim_kind
+                and (sim_kind != "exc" or res.get("type") == so[1])
+                and real_tree == sim_run["tree"])
+        if not same:
+            raise RuntimeError(
+                "seam/kernel mismatch for %r point %d %r dev %r: seam -> "
+                "%r, tree %r; strace -> %r, tree %r" % (
+                    scn, k, pts[k], dev, so[:2],
+                    [p for p, _ in sim_run["tree"]], res,
+                    [p for p, _ in real_tree]))
+        col.ev(1, 1, "conformance-ok")
+        col.extra("conformance_replays")
+
+
 def units(tier):
-    return [{"scn": s, "tier": tier}
-            for s in file_scenarios() + sharded_scenarios()]
+    u = [{"scn": s, "tier": tier}
+         for s in file_scenarios() + sharded_scenarios()]
+    u.append({"kind": "conformance-plan", "tier": tier})
+    return u
 
 
 def space(tier):
@@ -482,7 +538,25 @@ def space(tier):
 
 def run_unit(u):
     col = Collector()
+    if u.get("kind") == "conformance-plan":
+        # a deterministic subset validates the SEAM (it does not decide the
+        # property): 12 deviations in quick, every 7th in thorough
+        cands = conformance_candidates()
+        if u["tier"] == "quick":
+            step = max(1, len(cands) // 12)
+            picks = cands[::step][:12]
+        else:
+            picks = []      # thorough: done per scenario unit (parallel)
+        conformance_unit(col, picks)
+        col.extra("conformance_candidates", len(cands))
+        col.sample({"conformance": picks[0] if picks else None})
+        return col.result()
     explore(col, u["scn"], u["tier"])
+    if u["tier"] == "thorough":
+        cands = conformance_candidates([u["scn"]])
+        off = sum(map(ord, json.dumps(u["scn"], sort_keys=True))) % 7
+        conformance_unit(col, cands[off::7])
+        col.extra("conformance_candidates", len(cands))
     col.sample({"scenario": u["scn"], "deviations": {"7": ["kill-after"]}})
     return col.result()
 
